@@ -70,7 +70,11 @@ DEFCFG = {'backend': 'flat', 'dtype': 'int16', 'offset': 0, 'junk': 0, 'as': 'li
 # flat files only: 'bo' = 'swap' (the samples are stored in the NON-native byte order, '>i2' on a little-endian host),
 # 'dtform' (how the dtype keyword is given: absent = np.dtype instance, 'str' = dtype.str e.g. '>i2' / '<i2', 'name' =
 # 'int16' as params.py has it, 'type' = the scalar type np.int16; the last two cannot express a byte order),
-# 'direct' (FlatEphysReader(paths, ...) instead of get_ephys_reader(paths, ...))
+# 'direct' (FlatEphysReader(paths, ...) instead of get_ephys_reader(paths, ...)),
+# 'defoff' (stage 4: the `offset` keyword is NOT passed -- header offset 0 through the constructor's default; needs offset == 0);
+# any backend: 'idt' (stage 4: integer dtype of an ndarray / NumPy-scalar ROW index when 'as' == 'array': absent = int64;
+# 'uint64', 'uint32', 'uint16', 'uint8', 'int32', 'int16', 'int8' -- every integer dtype indexes a NumPy array alike)
+IDTMAX = {'uint64': 2 ** 63, 'uint32': 2 ** 32 - 1, 'uint16': 65535, 'uint8': 255, 'int32': 2 ** 31 - 1, 'int16': 32767, 'int8': 127}
 EXN = {'IndexError': 1, 'ValueError': 2, 'AssertionError': 3, 'ZeroDivisionError': 4, 'NotImplementedError': 5, 'TypeError': 6}
 
 
@@ -170,7 +174,21 @@ def _layout_ok(sizes, c, cfg, allow_empty=False):
         return False
     if cfg.get('bo') and (ITEMSIZE[cfg['dtype']] == 1 or cfg.get('dtform') in ('name', 'type')):
         return False
+    if cfg.get('defoff') and (cfg['backend'] != 'flat' or cfg['offset'] != 0):
+        return False
     return True
+
+
+def _idt_ok(cfg, it):
+    """the row index can be given as an ndarray / NumPy scalar of integer dtype cfg['idt']"""
+    idt = cfg.get('idt')
+    if not idt:
+        return True
+    if idt not in IDTMAX or cfg['as'] != 'array' or it[0] not in ('int', 'list'):
+        return False
+    vals = [it[1]] if it[0] == 'int' else list(it[1])
+    lo = 0 if idt.startswith('u') else -IDTMAX[idt] - 1
+    return bool(vals) and all(lo <= v <= IDTMAX[idt] for v in vals)
 
 
 def valid_case(case):
@@ -181,6 +199,8 @@ def valid_case(case):
         return bool(sizes) and min(sizes) >= 0 and sum(sizes) >= 1 and valid_item(sum(sizes), i['item']) and \
             i['form'] in ('plain', 'tuple1', 'tuple2')
     if k == 'ctor':
+        if i.get('memmap') and not (len(i['fbytes']) == 1 and i['fbytes'][0] >= 0 and i['offset'] == 0 and i['rate'] == 3.0):
+            return False
         return min(i['fbytes'] + [0]) >= -1 and i['offset'] >= 0 and i['dtype'] in ITEMSIZE
     if k == 'dispatch':
         return (i['what'] == 'tuple' and 0 <= i['k'] <= 4) or (i['what'] == 'npy' and 1 <= i['k'] <= 3)
@@ -197,7 +217,7 @@ def valid_case(case):
         # has no column count in the model)
         if not valid_cols(c, cols) and not valid_item(n, it):
             return False
-        return True
+        return not cfg.get('idt')
     if not _layout_ok(sizes, c, cfg) or cfg.get('extra'):
         return False
     if k == 'attrs':
@@ -208,7 +228,7 @@ def valid_case(case):
         return False
     if cfg.get('tuple1') and i['cols'] is not None:
         return False
-    return True
+    return _idt_ok(cfg, i['item'])
 
 
 def _norm(case):
@@ -235,11 +255,15 @@ def _sub(sizes, item, form='plain', **kw):
     return {'kind': 'sub', 'inp': {'sizes': list(sizes), 'item': item, 'form': form, 'as': kw.get('as', 'list')}}
 
 
-def _ctor(fbytes, c, offset=0, dtype='int16', rate=3.0, direct=False):
+def _ctor(fbytes, c, offset=0, dtype='int16', rate=3.0, direct=False, memmap=False):
     """a flat reader on files of the given byte lengths (-1 = the file does not exist), through get_ephys_reader(list of
-    paths) or, direct=True, FlatEphysReader(list of paths)"""
-    return {'kind': 'ctor', 'inp': {'fbytes': list(fbytes), 'c': c, 'offset': offset, 'dtype': dtype, 'rate': rate,
-                                    'direct': direct}}
+    paths) or, direct=True, FlatEphysReader(list of paths); memmap=True (stage 4): `_memmap_flat(path, dtype=, n_channels=)`
+    called directly on the one file WITHOUT the offset keyword (its default 0) -- on one existing file it answers / raises
+    like FlatEphysReader([path], offset=0) and is encoded as that"""
+    inp = {'fbytes': list(fbytes), 'c': c, 'offset': offset, 'dtype': dtype, 'rate': rate, 'direct': direct}
+    if memmap:
+        inp['memmap'] = True
+    return {'kind': 'ctor', 'inp': inp}
 
 
 def _dispatch(what, k):
@@ -329,6 +353,9 @@ CORPUS = [
     _ctor([12], 0), _ctor([12], -1), _ctor([0], 2), _ctor([12, 0], 2), _ctor([12], 2, offset=12), _ctor([12], 2, offset=14),
     _ctor([12], 2, rate=0.0), _ctor([12], 2, rate=-1.0), _ctor([12], 2, rate=1e-4), _ctor([12, 5], 3), _ctor([5], 3),
     _ctor([12, 13], 2, offset=1, dtype='float32'),
+    # stage 4: _memmap_flat called directly without the offset keyword (default 0): rows, trailing bytes, empty file, n_channels 0
+    _ctor([12], 2, memmap=True), _ctor([13], 3, memmap=True, dtype='float32'), _ctor([1], 1, memmap=True, dtype='uint8'),
+    _ctor([0], 2, memmap=True), _ctor([12], 0, memmap=True), _ctor([3], 2, memmap=True),
     # a file that does not exist: first of the list (get_ephys_reader returns None, line 498), later in the list (TypeError),
     # FlatEphysReader called directly (assert all(p.exists()))
     _ctor([-1, 12], 2), _ctor([12, -1], 2), _ctor([-1], 2), _ctor([], 2), _ctor([12, -1], 2, direct=True), _ctor([-1], 2, direct=True),
@@ -747,7 +774,7 @@ def _any_cases(nmax):
 def generate(tier, rng):
     cases = [c for c in CORPUS]
     if tier == 'search':
-        return cases + _random(rng, 4000, 600)
+        return _stage4_axes(cases + _random(rng, 4000, 600))
     quick = tier == 'quick'
     base = _exhaustive(4, 5) if quick else _exhaustive(6, 7)
     cases += base
@@ -769,6 +796,34 @@ def generate(tier, rng):
     for k, c in enumerate(cases):
         if c['kind'] == 'get' and k % 3 == 1 and not c['inp']['cfg'].get('used'):
             c = {'kind': c['kind'], 'inp': dict(c['inp'], cfg=dict(c['inp']['cfg'], used=True))}
+        out.append(c)
+    return _stage4_axes(out)
+
+
+IDT_ROT = ('uint64', 'int32', 'uint8', 'uint64', 'uint32', 'int16', 'uint16', 'int8')
+
+
+def _stage4_axes(cases):
+    """stage 4 (full mutation sweep): two axes no case had.  (1) every second flat recording without header is opened WITHOUT
+    the `offset` keyword (FlatEphysReader's default `offset=0` was never used: a changed default survived).  (2) two in five
+    of the ndarray / NumPy-scalar row indices are given in another integer dtype than int64 (`np.asarray(item, dtype=np.int64)`
+    in the list branch of _get_subitems: without it a uint64 index array minus an int64 bound is a float64 array)"""
+    out = []
+    for k, c in enumerate(cases):
+        if c['kind'] in ('get', 'attrs'):
+            cfg = c['inp']['cfg']
+            new = {}
+            if cfg['backend'] == 'flat' and cfg['offset'] == 0 and k % 2 == 0 and 'defoff' not in cfg:
+                new['defoff'] = True
+            if c['kind'] == 'get' and cfg['as'] == 'array' and c['inp']['item'][0] != 'slice' and k % 5 in (0, 3) and 'idt' not in cfg:
+                for j in range(len(IDT_ROT)):
+                    idt = IDT_ROT[(k // 5 + j) % len(IDT_ROT)]
+                    if _idt_ok(dict(cfg, idt=idt), c['inp']['item']):
+                        new['idt'] = idt
+                        break
+            if new:
+                c = {'kind': c['kind'], 'inp': dict(c['inp'], cfg=dict(cfg, **new))}
+                assert valid_case(c), c
         out.append(c)
     return out
 
@@ -844,7 +899,8 @@ def make_reader(d, sizes, c, cfg):
         darg = {None: dtype, 'str': dtype.str, 'name': dtype.name, 'type': dtype.type}[cfg.get('dtform')]
         assert np.dtype(darg) == dtype
         make = FlatEphysReader if cfg.get('direct') else get_ephys_reader
-        r = make(arg, sample_rate=rate, dtype=darg, n_channels=c, offset=cfg['offset'])
+        kw = {} if cfg.get('defoff') else {'offset': cfg['offset']}
+        r = make(arg, sample_rate=rate, dtype=darg, n_channels=c, **kw)
         return r, (lambda: None), info
     if be == 'array':
         return get_ephys_reader(A, sample_rate=rate), (lambda: None), info
@@ -875,13 +931,14 @@ def make_reader(d, sizes, c, cfg):
     raise ValueError(be)
 
 
-def py_item(it, form):
+def py_item(it, form, idt=None):
     import numpy as np
+    idt = np.dtype(idt or 'int64')
     if it[0] == 'int':
-        return np.int64(it[1]) if form == 'array' else it[1]       # isinstance(item, (int, np.generic))
+        return idt.type(it[1]) if form == 'array' else it[1]       # isinstance(item, (int, np.generic))
     if it[0] == 'slice':
         return slice(it[1], it[2], it[3])
-    return np.array(it[1], dtype=np.int64) if form == 'array' else list(it[1])
+    return np.array(it[1], dtype=idt) if form == 'array' else list(it[1])
 
 
 def py_cols(cols, form):
@@ -940,6 +997,12 @@ def run_case(case):
                 if nb >= 0:
                     p.write_bytes(b'\x01' * nb)
                 paths.append(p)
+            if i.get('memmap'):
+                from phylib.io.traces import _memmap_flat
+                m = _memmap_flat(paths[0], dtype=np.dtype(i['dtype']), n_channels=i['c'], mode='r')
+                nrows = int(m.shape[0])
+                del m
+                return ('bounds', [0, nrows])
             make = FlatEphysReader if i.get('direct') else get_ephys_reader
             r = make(paths, sample_rate=i['rate'], dtype=np.dtype(i['dtype']), n_channels=i['c'], offset=i['offset'])
             if r is None:
@@ -979,7 +1042,7 @@ def run_case(case):
             return ('attrs', int(shape[0]), int(shape[1]), int(r.n_samples), int(r.n_channels), _dtcode(r.dtype),
                     float(r.duration).hex(), [int(x) for x in r.part_bounds], info.get('fsizes'), rate.hex(),
                     int(round(600.0 * rate)), len(shape))
-        it = py_item(i['item'], cfg['as'])
+        it = py_item(i['item'], cfg['as'], cfg.get('idt'))
         if cfg.get('used'):
             nch = int(r.n_channels)
             r[0, [nch - 1]]
@@ -1014,7 +1077,7 @@ def expected(case):
     import numpy as np
     i = case['inp']
     A = matrix(sum(i['sizes']), i['c'], i['cfg']['dtype'])
-    out = np.atleast_2d(A[py_item(i['item'], i['cfg']['as'])])
+    out = np.atleast_2d(A[py_item(i['item'], i['cfg']['as'], i['cfg'].get('idt'))])
     if i['cols'] is not None:
         out = out[:, py_cols(i['cols'], i['cfg']['as'])]
     return out.tolist()
@@ -1075,7 +1138,7 @@ def encode(case, obs):
             return cin, q.app('ObsSubs', q.lst(obs[1], _subitem))
         return cin, 'ObsCrash'
     if case['kind'] == 'ctor':
-        cin = q.app('InCtor', q.b(i.get('direct')), q.zl(i['fbytes']), q.z(i['offset']), q.z(ITEMSIZE[i['dtype']]),
+        cin = q.app('InCtor', q.b(i.get('direct') or i.get('memmap')), q.zl(i['fbytes']), q.z(i['offset']), q.z(ITEMSIZE[i['dtype']]),
                     q.z(i['c']), q.z(int(round(600.0 * i['rate']))))
         if obs[0] == 'bounds':
             return cin, q.app('ObsBounds', q.zl(obs[1]))
@@ -1139,7 +1202,8 @@ def dist(case, obs):
         return ['kind=sub', 'sub.form=' + i['form'], 'sub.item=' + i['item'][0], 'parts=%s' % _bucket(len(i['sizes'])),
                 'zero_row_file=%s' % (0 in i['sizes'])]
     if k in ('ctor', 'dispatch'):
-        return ['kind=' + k, k + '.outcome=' + (obs[1] if obs[0] == 'crash' else obs[0])]
+        return ['kind=' + k, k + '.outcome=' + (obs[1] if obs[0] == 'crash' else obs[0])] + \
+            (['ctor.via=_memmap_flat'] if i.get('memmap') else [])
     cfg = i['cfg']
     out = ['kind=' + case['kind'], 'backend=' + cfg['backend'], 'dtype=' + cfg['dtype'],
            'parts=%s' % _bucket(len(i['sizes'])), 'n=%s' % _bucket(sum(i['sizes'])), 'channels=%d' % i['c'],
@@ -1150,6 +1214,7 @@ def dist(case, obs):
         out.append('flat.byteorder=%s' % ('non-native' if cfg.get('bo') else 'native'))
         out.append('flat.dtype_arg=%s' % {None: 'np.dtype', 'str': 'str-code', 'name': 'str-name', 'type': 'scalar-type'}[cfg.get('dtform')])
         out.append('flat.via=%s' % ('FlatEphysReader' if cfg.get('direct') else 'get_ephys_reader'))
+        out.append('flat.offset_keyword=%s' % ('default' if cfg.get('defoff') else 'given'))
     if k == 'attrs':
         rate = 10.0 if cfg['backend'] == 'cbin' else float(cfg['rate'])
         cs, last = int(round(600.0 * rate)), i['sizes'][-1]
@@ -1168,6 +1233,8 @@ def dist(case, obs):
         out.append('item=' + ({'list': 'list', 'array': 'ndarray'}[cfg['as']] if it[0] == 'list' else
                               'np.int64' if it[0] == 'int' and cfg['as'] == 'array' else it[0]) +
                    ('-in-1-tuple' if cfg.get('tuple1') else ''))
+        if cfg['as'] == 'array' and it[0] != 'slice':
+            out.append('item.index_dtype=%s' % (cfg.get('idt') or 'int64'))
         cols = i['cols']
         out.append('cols=' + ('none' if cols is None else
                               ('slice-negative-step' if (cols[3] or 1) < 0 else 'slice') if cols[0] == 'slice'
@@ -1229,7 +1296,7 @@ def shrink(case):
             c2 = dict(cfg)
             c2[key] = DEFCFG[key]
             cands.append(mk(cfg=c2))
-    for key in ('used', 'tuple1', 'aslist', 'bo', 'dtform', 'direct'):
+    for key in ('used', 'tuple1', 'aslist', 'bo', 'dtform', 'direct', 'defoff', 'idt'):
         if cfg.get(key):
             c2 = dict(cfg)
             del c2[key]
